@@ -1,8 +1,10 @@
 (* C12 — comparison agrees with Erlang's standard term order.
    Stage reached: the rank order and the leaf orders are proved against the specification for all values of those
-   kinds; every recorded deviation class has a refutation witness; containers are covered by the exhaustive
-   pair check of the correspondence run against an exact Python reference (see DESIGN.md). *)
-From EDP Require Import Base.Bytes Base.F64 Term.Term Gen.Ranks Order.Cmp Order.CmpFacts.
+   kinds; every recorded deviation class has a refutation witness; containers compare in the shape the specification
+   prescribes (tuples by size then elements, lists by elements then length, bit strings by bytes then bit count, maps by
+   size then keys then values) for all terms; that their elements in turn compare as Erlang orders them is, beyond the
+   leaf theorems, the exhaustive pair check of the correspondence run against an exact Python reference. *)
+From EDP Require Import Base.Bytes Base.F64 Term.Term Gen.Ranks Order.Cmp Order.CmpFacts Order.CmpLaws.
 
 (* Erlang: number < atom < reference < fun < port < pid < tuple < map < nil/list < bit string — both generated tables *)
 Definition spec_rank (t : term) : N :=
@@ -41,6 +43,40 @@ Theorem C12_bigs_msd_first : forall d1 d2,
 Proof. reflexivity. Qed.
 
 (* the recorded deviation classes, each with a witness on the faithful model *)
+(* ---- containers ---- *)
+(* the textbook lexicographic comparison over the common prefix *)
+Fixpoint lex (c : term -> term -> comparison) (l1 l2 : list term) : comparison :=
+  match l1, l2 with
+  | x :: r1, y :: r2 => thn (c x y) (lex c r1 r2)
+  | _, _ => Eq
+  end.
+
+Lemma zipc_lex rank : forall l1 l2, zipc rank l1 l2 = lex (cmp rank) l1 l2.
+Proof. induction l1 as [|x l1 IH]; intros [|y l2]; try reflexivity. cbn [zipc lex]. rewrite IH. unfold thn. destruct (cmp rank x y); reflexivity. Qed.
+
+Theorem C12_tuples_size_then_elements : forall l1 l2,
+  cmp_owned (TTuple l1) (TTuple l2) = thn (len l1 ?= len l2) (lex cmp_owned l1 l2).
+Proof. intros. unfold cmp_owned. rewrite cmp_unfold. cbn [rank_owned]. rewrite N.compare_refl. now rewrite zipc_lex. Qed.
+
+Theorem C12_lists_elements_then_length : forall l1 l2,
+  cmp_owned (TList l1) (TList l2) = thn (lex cmp_owned l1 l2) (len l1 ?= len l2).
+Proof. intros. unfold cmp_owned. rewrite cmp_unfold. cbn [rank_owned]. rewrite N.compare_refl. now rewrite zipc_lex. Qed.
+
+Theorem C12_bitstrings_bytes_then_bits : forall x kx y ky,
+  cmp_owned (TBitBin x kx) (TBitBin y ky) = thn (cmp_bytes x y) (kx ?= ky) /\
+  cmp_owned (TBin x) (TBitBin y ky) = thn (cmp_bytes x y) (8 ?= ky) /\
+  cmp_owned (TBitBin x kx) (TBin y) = thn (cmp_bytes x y) (kx ?= 8).
+Proof. intros. repeat split; reflexivity. Qed.
+
+Theorem C12_maps_size_keys_values : forall m1 m2,
+  cmp_owned (TMap m1) (TMap m2) =
+    thn (len m1 ?= len m2) (thn (lex cmp_owned (map fst m1) (map fst m2)) (lex cmp_owned (map snd m1) (map snd m2))).
+Proof.
+  intros. unfold cmp_owned. rewrite cmp_unfold. cbn [rank_owned]. rewrite N.compare_refl. f_equal. f_equal.
+  - revert m2. induction m1 as [|kv m1 IH]; intros [|kv2 m2]; try reflexivity. cbn [zipk map lex]. rewrite IH. unfold thn. destruct (cmp rank_owned (fst kv) (fst kv2)); reflexivity.
+  - revert m2. induction m1 as [|kv m1 IH]; intros [|kv2 m2]; try reflexivity. cbn [zipv map lex]. rewrite IH. unfold thn. destruct (cmp rank_owned (snd kv) (snd kv2)); reflexivity.
+Qed.
+
 Theorem C12_refuted_lossy_int_float :
   cmp_owned (TInt 9007199254740993) (TFloat 4845873199050653696) = Eq.      (* 2^53+1 vs 2^53.0: Erlang says Gt *)
 Proof. vm_compute. reflexivity. Qed.
